@@ -368,7 +368,7 @@ def run(tier, seed, part=None):
         "write-error-in-handshake": [["accept"], ["answer"], ["failw"], ["answer"], ["accept"], ["answer"]],
         # back-pressure: the heartbeat (t=300) and a command find the stream stalled and park in drain();
         # shutdown() lands while they are parked (and must not wait for a stream that never drains)
-        "stalled-heartbeat-and-command": A + [["stall"], ["tick"], ["cmd"], ["tick"]],
+        "stalled-heartbeat-and-command": A + [["stall"], ["tick"], ["cmd"], ["cmd"], ["tick"]],
     }
     cap = 50 if tier == "quick" else 300
     for gen in (4, 5):
